@@ -480,7 +480,8 @@ def resolve_env(crate, body, term, depth=0):
     when it built the closure (so `let limit = self.config.x; move |..| f(limit)` is seen as f(self.config.x))"""
     if depth > 3 or body.kind not in ('closure', 'coroutine') or not body.parent:
         return term
-    if not term_contains(term, lambda x: isinstance(x, tuple) and len(x) == 3 and x[0] == 'field' and x[1] == ('env',)):
+    is_env = lambda x: isinstance(x, tuple) and len(x) == 3 and x[0] == 'field' and x[1] in (('env',), ('deref', ('env',)))
+    if not term_contains(term, is_env):
         return term
     try:
         parent = crate.body(re.compile('^' + re.escape(body.parent) + '$'))
@@ -496,7 +497,7 @@ def resolve_env(crate, body, term, depth=0):
 
     def sub(t):
         if isinstance(t, tuple):
-            if len(t) == 3 and t[0] == 'field' and t[1] == ('env',) and t[2] in caps:
+            if is_env(t) and t[2] in caps:
                 return caps[t[2]]
             return tuple(sub(x) for x in t)
         if isinstance(t, list):
